@@ -212,18 +212,24 @@ func TestVfC14Faults(t *testing.T) {
 }
 
 func TestVfC14Stale(t *testing.T) {
-	st := vfkit.Stats("TestVfC14Stale", "per connection-oriented transport: after a successful exchange the server kills the pooled idle connection(s) by FIN or RST (quic also: keeps them open but resets every new stream on them), 0 us-50 ms before the next call, and stays healthy, 1-40 rounds per case; oracle: the next exchange succeeds within its 3 s deadline using at most 7 new connections; and a server that kills every connection on the first query yields an error with at most 7 connections per exchange; non-trivial = every case")
+	st := vfkit.Stats("TestVfC14Stale", "per connection-oriented transport: after a successful exchange the server kills the pooled idle connection(s) by FIN or RST (quic also: keeps them open but resets every new stream on them; stream kinds also: answers the next query on them with the first octets of a reply and then closes), 0 us-50 ms before the next call, and stays healthy, 1-40 rounds per case; oracle: the next exchange succeeds within its 3 s deadline using at most 7 new connections; and a server that kills every connection on the first query yields an error with at most 7 connections per exchange; non-trivial = every case")
 	defer vfkit.Flush()
 	_, leaf := vfTLSMaterial()
 	rapid.Check(t, func(t *rapid.T) {
 		kind := rapid.SampledFrom([]string{"tcp", "tcp+pipeline", "tls", "tls+pipeline", "https", "quic", "h3"}).Draw(t, "kind")
 		mode := rapid.SampledFrom([]string{"stale-fin", "stale-rst", "always-kill"}).Draw(t, "mode")
+		if (kind == "tcp" || kind == "tls" || kind == "tcp+pipeline" || kind == "tls+pipeline") && rapid.IntRange(0, 3).Draw(t, "halfReplies") == 0 {
+			// the pooled connections stay open, but on each of them the server answers the next query with the beginning
+			// of a reply (1, 2, 3 or 9 octets) and then closes; connections dialled afterwards are served
+			mode = "stale-half-reply"
+		}
 		if kind == "quic" && rapid.Bool().Draw(t, "streamResets") {
 			// the pooled connection stays open, but the server refuses every new stream on it (it is draining that
 			// connection); connections dialled afterwards are served
 			mode = "stale-stream-reset"
 		}
 		var killAll atomic.Bool
+		var halfReplyUpTo, halfReplyOctets atomic.Int64
 		// the pool may hold more than one idle connection: "pool.c14" queries are held until poolSize of them have arrived,
 		// so that as many connections are open at once (on the kinds that use a connection per exchange)
 		poolSize := rapid.SampledFrom([]int{1, 1, 1, 2, 4, 8, 12}).Draw(t, "idleConnections")
@@ -233,6 +239,11 @@ func TestVfC14Stale(t *testing.T) {
 		srv, err := vfkit.StartUpstream(kind, "s", "127.0.0.1", 0, vfkit.ServerTLS(leaf), func(q *vfkit.UpQuery) vfkit.UpAction {
 			if killAll.Load() {
 				return vfkit.UpAction{CloseBefore: true}
+			}
+			if up := halfReplyUpTo.Load(); up > 0 && q.ConnID <= up {
+				// a connection from before: the server starts its reply and hangs up in the middle of it
+				f := vfkit.Frame(vfOKReply(q))
+				return vfkit.UpAction{RawStream: f[:min(int(halfReplyOctets.Load()), len(f)-1)], CloseAfter: true}
 			}
 			if q.Msg.Err == nil && len(q.Msg.Q) == 1 && string(q.Msg.Q[0].Name[0]) == "pool" {
 				if int(poolArrived.Add(1)) >= poolSize {
@@ -273,7 +284,7 @@ func TestVfC14Stale(t *testing.T) {
 		}
 		before := srv.Conns()
 		switch mode {
-		case "stale-fin", "stale-rst", "stale-stream-reset":
+		case "stale-fin", "stale-rst", "stale-stream-reset", "stale-half-reply":
 			// several rounds per case: kill, wait 0 .. 50 ms (mostly next to nothing, so that the next exchange meets the
 			// connection while the client side is still finding out), exchange - which is also the warm-up of the next round
 			rounds := rapid.IntRange(1, 40).Draw(t, "rounds")
@@ -282,6 +293,9 @@ func TestVfC14Stale(t *testing.T) {
 				killed := 0
 				if mode == "stale-stream-reset" {
 					srv.ResetStreamsOnLiveConns()
+				} else if mode == "stale-half-reply" {
+					halfReplyOctets.Store(int64(rapid.SampledFrom([]int{1, 2, 3, 9}).Draw(t, "replyOctetsBeforeTheClose")))
+					halfReplyUpTo.Store(srv.LastConnID())
 				} else {
 					killed = srv.KillConns(mode == "stale-rst")
 				}
